@@ -168,7 +168,10 @@ def run(tier: str, seed: int) -> int:
 
     # corpus first
     corpus = [{}, {"code": "", "options": {}}, {"code": "a"}, {"code": "ab"}, {"code": "abc"}, {"k": "€\U0001F600"},
-              {"code": "x=1\n# pytrapic: compact\n", "options": {"compact": True}}]
+              {"code": "x=1\n# pytrapic: compact\n", "options": {"compact": True}},
+              # long programs: JSON text beyond 64 KiB / 128 KiB (repetitive, non-ASCII comments, hardly compressible)
+              {"code": "db.Setting = db.Setting + 1\n" * 3000, "options": {}}, {"code": "# Größe der Anlage: 5 m³\n" * 4000},
+              {"code": "".join(chr(33 + (i * 7919) % 90) for i in range(140000)), "options": {"compact": False}}]
     for d in corpus:
         one_object(d)
     for _ in range(n_obj):
